@@ -1,5 +1,7 @@
-//! `read.*`: the seekable and the streaming reader over byte strings — C03 (foreign well-formed
-//! archives), C05 (untrusted bytes never panic), the read half of C01.
+//! `read.*`: the seekable and the streaming reader over byte strings, and `ZipWriter::new_append` on
+//! the same bytes — C03 (foreign well-formed archives), C05 (untrusted bytes never panic, hang or
+//! exhaust memory: outcome classes by correspondence, wall time and peak heap MEASURED by the oracle
+//! with the counting allocator of `crate::mem`), the read half of C01.
 use super::{GenOut, OracleFailure, Stream};
 use crate::mkzip::{self, Desc, Entry, Layout};
 use crate::prng::Rng;
@@ -235,6 +237,118 @@ pub fn run_stream(bytes: Vec<u8>) -> String {
     r.unwrap_or_else(|m| format!("visit=panic:{}", m.replace(' ', "_")))
 }
 
+/// `(archive_offset, directory_start, number_of_files)` as `new_append` computes them (crate hooks).
+pub fn directory_counts(bytes: &[u8]) -> Option<(u64, u64, usize)> {
+    let b = bytes.to_vec();
+    catch(move || {
+        let mut c = Cursor::new(&b[..]);
+        let (footer, cde) = zip::verif_hooks::CentralDirectoryEnd::find_and_parse(&mut c).ok()?;
+        zip::verif_hooks::get_directory_counts(&mut c, &footer, cde).ok()
+    })
+    .ok()
+    .flatten()
+}
+
+/// `ZipWriter::new_append` on untrusted bytes → `append=<error class>` | `append=ok n=<declared =
+/// parsed entries> ds=<directory start>` followed by the outcome of `finish()` (which rewrites the
+/// central directory from what was parsed: the final bytes show every entry `new_append` kept).
+/// Hard guard: `finish` is NOT run when the directory start (= the writer's position) lies more than
+/// 1 MiB beyond the end of the input (`fin=skipped`): it would zero-fill up to that offset (before
+/// the D16 fix a 98-byte input could demand 4 GiB, a `capacity overflow` panic or an allocation
+/// abort).  Since D16 `new_append` rejects such archives; should that regress, the oracle reports
+/// the case instead of executing it.
+pub fn run_append(bytes: Vec<u8>) -> String {
+    let len = bytes.len() as u64;
+    let counts = directory_counts(&bytes);
+    let r = catch(move || {
+        let mut w = match zip::ZipWriter::new_append(Cursor::new(bytes)) {
+            Ok(w) => w,
+            Err(e) => return format!("append={}", cls_z(&e)),
+        };
+        let (n, ds) = match counts {
+            Some((_, ds, n)) => (n, ds),
+            None => {
+                std::mem::forget(w);
+                return "append=ok n=? ds=?".into();
+            }
+        };
+        let head = format!("append=ok n={n} ds={ds}");
+        if ds > len + (1 << 20) {
+            std::mem::forget(w); // Drop would run finalize and write at `ds`
+            return format!("{head} fin=skipped");
+        }
+        let fin = catch(std::panic::AssertUnwindSafe(|| w.finish()));
+        match fin {
+            Ok(Ok(c)) => {
+                let b = c.into_inner();
+                format!("{head} fin=ok final=crc:{}:{}", crc32fast::hash(&b), b.len())
+            }
+            Ok(Err(e)) => {
+                std::mem::forget(w); // Drop would run finalize a second time
+                format!("{head} fin={}", cls_z(&e))
+            }
+            Err(_) => {
+                std::mem::forget(w);
+                format!("{head} fin=panic")
+            }
+        }
+    });
+    r.unwrap_or_else(|m| format!("append=panic:{}", m.replace(' ', "_")))
+}
+
+/// `ZipArchive::new` only (the op whose peak heap the oracle measures on large liars).
+pub fn run_mem(bytes: Vec<u8>) -> String {
+    let r = catch(move || match zip::ZipArchive::new(Cursor::new(bytes)) {
+        Ok(a) => format!("open=ok n={}", a.len()),
+        Err(e) => format!("open={}", cls_z(&e)),
+    });
+    r.unwrap_or_else(|m| format!("open=panic:{}", m.replace(' ', "_")))
+}
+
+// ------------------------------------------------------------------------------------------
+// resource measurements (C05: measured, not proved)
+
+/// Bytes one pre-allocated slot costs: a `ZipFileData` in `files` plus a `(String, usize)` bucket of
+/// `names_map` (hashbrown: buckets = next power of two of 8/7·capacity, one control byte each).
+pub fn slot_bytes() -> usize {
+    std::mem::size_of::<zip::verif_hooks::ZipFileData>() + 128
+}
+
+/// Budget for the peak heap while opening `len` input bytes: `K·len + C` with
+/// `K = size_of::<ZipFileData>() + 128`, `C = 1 MiB`.  (`Vec::with_capacity(file_capacity)` with
+/// `file_capacity ≤ cde_start_pos ≤ len` elements is the dominant term; Lean: `prealloc_bound`.)
+pub fn mem_budget(len: usize) -> usize {
+    slot_bytes() * len + (1 << 20)
+}
+
+pub const TIME_LIMIT_US: u128 = 2_000_000;
+
+static MAX_PEAK: std::sync::atomic::AtomicU64 = std::sync::atomic::AtomicU64::new(0);
+static MAX_RATIO_X100: std::sync::atomic::AtomicU64 = std::sync::atomic::AtomicU64::new(0);
+static MAX_US: std::sync::atomic::AtomicU64 = std::sync::atomic::AtomicU64::new(0);
+static MEASURED: std::sync::atomic::AtomicU64 = std::sync::atomic::AtomicU64::new(0);
+
+/// Peak heap (bytes above the level at entry, input buffer excluded) while opening.
+pub fn measure_open(op: &str, bytes: &[u8]) -> usize {
+    let b = bytes.to_vec();
+    let (_, peak, _) = match op {
+        "read.append" => crate::mem::measure(move || {
+            let _ = catch(move || {
+                if let Ok(w) = zip::ZipWriter::new_append(Cursor::new(b)) {
+                    std::mem::forget(w); // no finalize on drop: only the open is measured
+                }
+            });
+        }),
+        "read.stream" => crate::mem::measure(move || {
+            let _ = run_stream(b);
+        }),
+        _ => crate::mem::measure(move || {
+            let _ = catch(move || zip::ZipArchive::new(Cursor::new(b)).map(|a| a.len()).ok());
+        }),
+    };
+    peak
+}
+
 /// A reader that hands out at most `chunk` bytes per call (0 = no limit).
 pub struct ChunkReader<'a> { pub inner: Cursor<&'a [u8]>, pub chunk: usize }
 impl<'a> Read for ChunkReader<'a> {
@@ -268,7 +382,7 @@ pub fn run_streamc(bytes: Vec<u8>, pattern: Vec<usize>, chunk: usize) -> String 
                         }
                     }
                     let res = err.unwrap_or_else(|| format!("ok:{}:{}", crc32fast::hash(&got), got.len()));
-                    out += &format!(" | {} m={} got={}", hex(f.name().as_bytes()), method_u16(f.compression()), res);
+                    out += &format!(" | {} got={}", show_meta(&f), res);
                     i += 1;
                     if i > 4096 { return "end=runaway".into(); }
                 }
@@ -276,6 +390,105 @@ pub fn run_streamc(bytes: Vec<u8>, pattern: Vec<usize>, chunk: usize) -> String 
         }
     });
     r.unwrap_or_else(|m| format!("end=panic:{}", m.replace(' ', "_")))
+}
+
+/// The seekable reader's entry list: (metadata line, decoded content) per entry — the reference the
+/// streaming reader is compared with (C10, implementation only).
+pub fn seek_list(bytes: &[u8]) -> Result<Vec<(String, Vec<u8>)>, String> {
+    let bytes = bytes.to_vec();
+    catch(move || {
+        let mut a = zip::ZipArchive::new(Cursor::new(bytes)).map_err(|e| cls_z(&e))?;
+        let mut v = vec![];
+        for i in 0..a.len() {
+            let mut f = a.by_index(i).map_err(|e| cls_z(&e))?;
+            let meta = show_meta(&f);
+            let mut c = vec![];
+            f.read_to_end(&mut c).map_err(|e| cls_io(&e))?;
+            v.push((meta, c));
+        }
+        Ok(v)
+    })
+    .unwrap_or_else(|m| Err(format!("panic:{m}")))
+}
+
+/// value of ` key=` inside a `show_meta` line
+fn meta_field<'a>(meta: &'a str, key: &str) -> &'a str {
+    let pat = format!("{key}=");
+    for tok in meta.split(' ') {
+        if let Some(v) = tok.strip_prefix(&pat) { return v; }
+    }
+    ""
+}
+
+/// the fields a stream can know: names, method, timestamp, CRC, both sizes
+const STREAM_FIELDS: [&str; 7] = ["name", "raw", "m", "t", "crc", "cs", "us"];
+
+fn same_stream_fields(a: &str, b: &str) -> Option<String> {
+    for k in STREAM_FIELDS {
+        if meta_field(a, k) != meta_field(b, k) {
+            return Some(format!("{k}: stream `{}` vs seekable `{}`", meta_field(a, k), meta_field(b, k)));
+        }
+    }
+    None
+}
+
+/// Per-entry consumption pattern computed from the entry sizes: every entry gets one of
+/// {0, 1, k, all-1, all, all+1 (the read that reports end-of-file), far beyond}.
+fn sized_pattern(r: &mut Rng, sizes: &[u64]) -> (String, Vec<usize>) {
+    let regime = r.below(8);
+    let name = ["zero", "one", "k", "all-1", "all", "eof", "beyond", "mixed"][regime as usize];
+    let pat: Vec<usize> = sizes.iter().map(|&n| {
+        let n = n as usize;
+        let pick = if regime == 7 { r.below(7) } else { regime };
+        match pick {
+            0 => 0,
+            1 => 1,
+            2 => if n > 1 { r.range(1, n as u64) as usize } else { n },
+            3 => n.saturating_sub(1),
+            4 => n,
+            5 => n + 1,
+            _ => n + 1 + r.below(100000) as usize,
+        }
+    }).collect();
+    (name.to_string(), pat)
+}
+
+/// An archive for C10's quantifier: at least one entry, from the crate's writer or from the independent
+/// builder laid out contiguously with the sizes in the local headers.
+fn c10_archive(r: &mut Rng) -> (Vec<u8>, &'static str) {
+    if r.chance(3, 5) {
+        loop {
+            let (b, e) = writer_archive(r);
+            if !e.starts_with("0;") { return (b, "writer"); }
+        }
+    }
+    loop {
+        let (mut l, _) = rand_layout(r);
+        if l.entries.is_empty() { continue; }
+        for e in l.entries.iter_mut() { e.descriptor = Desc::None; e.flags &= !1; e.gap_before.clear(); }
+        l.prefix.clear();
+        l.gap_before_cd.clear();
+        return (mkzip::build(&l).bytes, "builder");
+    }
+}
+
+/// The same, with one entry the stream cannot serve (data descriptor or encryption bit) at index `j`.
+fn c10_refused(r: &mut Rng) -> (Vec<u8>, usize) {
+    loop {
+        let (mut l, _) = rand_layout(r);
+        if l.entries.is_empty() { continue; }
+        for e in l.entries.iter_mut() { e.descriptor = Desc::None; e.flags &= !1; e.gap_before.clear(); }
+        l.prefix.clear();
+        l.gap_before_cd.clear();
+        let j = r.below(l.entries.len() as u64) as usize;
+        if r.chance(1, 2) {
+            l.entries[j].descriptor = *r.pick(&[Desc::Sig32, Desc::NoSig32, Desc::Sig64, Desc::NoSig64]);
+            l.entries[j].zip64_local = false;
+        } else {
+            l.entries[j].flags |= 1;
+        }
+        return (mkzip::build(&l).bytes, j);
+    }
 }
 
 // ------------------------------------------------------------------------------------------
@@ -455,6 +668,48 @@ fn lie(r: &mut Rng, l: &mut Layout) {
     }
 }
 
+/// `junk` followed by a plain end record at offset `junk.len()` declaring `count` entries (16-bit
+/// field: saturates at 0xFFFF, where the reader also looks for a ZIP64 locator and finds none), an
+/// empty central directory located at the end record itself (so the first header parse fails).
+pub fn eocd_liar(junk: &[u8], count: u64) -> Vec<u8> {
+    let mut b = junk.to_vec();
+    let c = count.min(0xFFFF) as u16;
+    b.extend_from_slice(&0x06054b50u32.to_le_bytes());
+    b.extend_from_slice(&[0, 0, 0, 0]);
+    b.extend_from_slice(&c.to_le_bytes());
+    b.extend_from_slice(&c.to_le_bytes());
+    b.extend_from_slice(&0u32.to_le_bytes());
+    b.extend_from_slice(&(junk.len().min(0xFFFF_FFFF) as u32).to_le_bytes());
+    b.extend_from_slice(&[0, 0]);
+    b
+}
+
+/// `junk`, a ZIP64 end record declaring `count` entries (directory "at" the record itself), its
+/// locator, and a plain end record full of 0xFFFF markers.  `cde_start_pos = junk.len() + 76`.
+pub fn eocd64_liar(junk: &[u8], count: u64) -> Vec<u8> {
+    let p = junk.len() as u64;
+    let mut b = junk.to_vec();
+    b.extend_from_slice(&0x06064b50u32.to_le_bytes());
+    b.extend_from_slice(&44u64.to_le_bytes());
+    b.extend_from_slice(&[45, 0, 45, 0]);
+    b.extend_from_slice(&0u32.to_le_bytes());
+    b.extend_from_slice(&0u32.to_le_bytes());
+    b.extend_from_slice(&count.to_le_bytes());
+    b.extend_from_slice(&count.to_le_bytes());
+    b.extend_from_slice(&0u64.to_le_bytes());
+    b.extend_from_slice(&p.to_le_bytes());
+    b.extend_from_slice(&0x07064b50u32.to_le_bytes());
+    b.extend_from_slice(&0u32.to_le_bytes());
+    b.extend_from_slice(&p.to_le_bytes());
+    b.extend_from_slice(&1u32.to_le_bytes());
+    b.extend_from_slice(&0x06054b50u32.to_le_bytes());
+    b.extend_from_slice(&[0, 0, 0, 0, 0xFF, 0xFF, 0xFF, 0xFF]);
+    b.extend_from_slice(&0xFFFF_FFFFu32.to_le_bytes());
+    b.extend_from_slice(&0xFFFF_FFFFu32.to_le_bytes());
+    b.extend_from_slice(&[0, 0]);
+    b
+}
+
 impl Stream for ReadStream {
     fn name(&self) -> &'static str {
         "read"
@@ -462,16 +717,22 @@ impl Stream for ReadStream {
 
     fn gen(&self, seed: u64, tier: &str) -> GenOut {
         let mut g = GenOut::default();
-        g.rule = "archives from (a) the independent APPNOTE builder (descriptors, forced ZIP64 subsets, prefix, gaps, made-by systems, unknown extras, comments), (b) the crate's writer, (c) builder archives with lying headers (values near 0/2^16/2^32/2^64, AES extras with/without flag, method 99), (d) every truncation point and byte substitutions of seeds, (e) random bytes; each through the seekable (read.seek) and streaming (read.stream) readers. distinct = distinct op lines; non-trivial = the archive opens".into();
+        g.rule = "archives from (a) the independent APPNOTE builder (descriptors, forced ZIP64 subsets, prefix, gaps, made-by systems, unknown extras, comments), (b) the crate's writer, (c) builder archives with lying headers (values near 0/2^16/2^32/2^64, AES extras with/without flag, method 99), (d) every truncation point and byte substitutions of seeds, (e) random bytes; each through the seekable (read.seek) and streaming (read.stream) readers; (b2/b3) the streaming entry loop under per-entry consumption patterns (read.streamc: {0, 1, k, all-1, all, all+1, beyond} computed from the entry sizes, and random) over short-read underlying streams (chunk 1, 2, 3, 7, 64, 4096, unlimited) on writer-made and builder-made archives with at least one entry, the visitor on the same archives, and archives with an encrypted / data-descriptor entry the stream must refuse; and a third of them (all truncations and random strings) through ZipWriter::new_append + finish (read.append), (f) pre-allocation liars: junk of 0..200000 bytes (2000000 thorough) + end records (plain and ZIP64) declaring cde_start_pos-1 / cde_start_pos / cde_start_pos+1 / 4x / 64x / 2^32 / 2^64-1 entries, and archives with 50..400 (3000) real entries (read.mem: open only), (g) empty ZIP64 archives whose directory offset points beyond the input (D16 regression cases: new_append must refuse; as a hard guard finish is skipped and reported by the oracle should the directory start ever exceed the input length by more than 1 MiB). The oracle re-runs every case on the implementation under a counting global allocator: no panic, deterministic, wall time < 2 s, peak heap while opening <= (size_of::<ZipFileData>()+128)*len + 1 MiB (measurement, not proof). distinct = distinct op lines; non-trivial = the archive opens".into();
         let thorough = tier == "thorough";
         let scale = if thorough { 20 } else { 1 };
         let mut idx = 0u64;
+        let mut napp = 0u64;
         let mut push = |g: &mut GenOut, kind: &str, bytes: &[u8], expect: Option<String>, stream_too: bool| {
             let codec = codec_table(bytes);
             let e = expect.map(|e| format!(" expect={e}")).unwrap_or_default();
             g.push(&format!("seek.{kind}"), format!("read.seek bytes={} codec={codec}{e}", hex(bytes)));
             if stream_too {
                 g.push(&format!("stream.{kind}"), format!("read.stream bytes={} codec={codec}", hex(bytes)));
+            }
+            // opening the same bytes for append: every truncation / random case, a third of the rest
+            napp += 1;
+            if kind == "truncate" || kind == "random" || napp % 3 == 0 {
+                g.push(&format!("append.{kind}"), format!("read.append bytes={}", hex(bytes)));
             }
         };
         // (a) well-formed foreign archives
@@ -503,6 +764,33 @@ impl Stream for ReadStream {
             let pat = match r.below(7) { 0 => "0".to_string(), 1 => "1".into(), 2 => "5,0,1000000".into(), 3 => "1000000".into(), 4 => format!("{}", r.below(2000)), 5 => "0,1000000".into(), _ => format!("{},{},{}", r.below(40), r.below(3), r.below(100000)) };
             let inner = *r.pick(&[0u64, 1, 2, 7, 64, 4096, 3]);
             g.push("streamc", format!("read.streamc bytes={} codec={codec} consume={pat} inner={inner}", hex(&b)));
+        }
+        // (b3) C10's quantifier: archives with at least one entry from the writer and the builder; per-entry
+        // patterns from {0, 1, k, all-1, all, all+1, beyond} computed from the entry sizes; short-read
+        // underlying streams; the visitor on the same kinds of archive; entries the stream must refuse
+        for k in 0..420 * scale {
+            idx += 1;
+            let mut r = super::rng_for(seed, "read.c10", idx);
+            let (b, src) = c10_archive(&mut r);
+            let codec = codec_table(&b);
+            let sizes: Vec<u64> = seek_list(&b).map(|v| v.iter().map(|(_, c)| c.len() as u64).collect()).unwrap_or_default();
+            let (regime, pat) = sized_pattern(&mut r, &sizes);
+            let pat_s = if pat.is_empty() { "0".to_string() } else { pat.iter().map(|x| x.to_string()).collect::<Vec<_>>().join(",") };
+            let inner = [0u64, 1, 2, 3, 7, 64, 4096][(k % 7) as usize];
+            g.push(&format!("streamc.{src}.{regime}"), format!("read.streamc bytes={} codec={codec} consume={pat_s} inner={inner} src={src}", hex(&b)));
+            if k % 3 == 0 {
+                g.push(&format!("stream.c10.{src}"), format!("read.stream bytes={} codec={codec} src={src}", hex(&b)));
+            }
+        }
+        for k in 0..60 * scale {
+            idx += 1;
+            let mut r = super::rng_for(seed, "read.c10r", idx);
+            let (b, j) = c10_refused(&mut r);
+            let codec = codec_table(&b);
+            let pat = *r.pick(&["0", "1", "7", "1000000"]);
+            let inner = [0u64, 1, 2, 3, 7, 64, 4096][(k % 7) as usize];
+            g.push("streamc.refused", format!("read.streamc bytes={} codec={codec} consume={pat} inner={inner} refuse={j}", hex(&b)));
+            g.push("stream.refused", format!("read.stream bytes={} codec={codec} refuse={j}", hex(&b)));
         }
         // (c) liars
         for _ in 0..500 * scale {
@@ -564,6 +852,38 @@ impl Stream for ReadStream {
             if r.chance(1, 2) { b.extend_from_slice(&[0x50, 0x4b, 0x05, 0x06]); b.extend_from_slice(&{ let n = r.below(30) as usize; r.bytes(n) }); }
             push(&mut g, "random", &b, None, true);
         }
+        // (f) pre-allocation liars: junk + an end record declaring as many entries as the guard at
+        // read.rs:413 lets through (count = cde_start_pos), one more (guard trips), and 2^64-1; plus
+        // archives with many real entries.  `read.mem` opens only; the oracle measures the peak heap.
+        let sizes: &[usize] = if thorough { &[0, 1, 45, 46, 1000, 20000, 65535, 65536, 300000, 2000000] } else { &[0, 1, 46, 1000, 20000, 65535, 200000] };
+        for &p in sizes {
+            idx += 1;
+            let mut r = super::rng_for(seed, "read.mem", idx);
+            let junk = r.bytes(p);
+            for count in [p as u64, p as u64 + 1, (p as u64).saturating_sub(1), 4 * p as u64, 64 * p as u64] {
+                let b = eocd_liar(&junk, count);
+                g.push("mem.liar32", format!("read.mem bytes={}", hex(&b)));
+                g.push("append.liar32", format!("read.append bytes={}", hex(&b)));
+            }
+            for count in [p as u64 + 76, p as u64 + 77, p as u64, 4 * (p as u64 + 76), 64 * (p as u64 + 76), u64::MAX, 1u64 << 32] {
+                let b = eocd64_liar(&junk, count);
+                g.push("mem.liar64", format!("read.mem bytes={}", hex(&b)));
+                g.push("append.liar64", format!("read.append bytes={}", hex(&b)));
+            }
+        }
+        // (g) append liars (D16 regression cases): empty ZIP64 archives whose directory offset points
+        // beyond the end record — `new_append` must answer InvalidArchive
+        for off in [99u64, 1 << 16, 1 << 32, 1 << 40, u64::MAX - 1, u64::MAX] {
+            let mut b = eocd64_liar(&[], 0);
+            b[48..56].copy_from_slice(&off.to_le_bytes());
+            g.push("append.beyond", format!("read.append bytes={}", hex(&b)));
+            g.push("mem.beyond", format!("read.mem bytes={}", hex(&b)));
+        }
+        for n in if thorough { vec![50usize, 400, 3000] } else { vec![50usize, 400] } {
+            let entries: Vec<Entry> = (0..n).map(|i| Entry::stored(format!("f{i}").as_bytes(), b"")).collect();
+            let b = mkzip::build(&Layout::new(entries)).bytes;
+            g.push("mem.many", format!("read.mem bytes={}", hex(&b)));
+        }
         g
     }
 
@@ -576,6 +896,8 @@ impl Stream for ReadStream {
                 run_seek(bytes, pw)
             }
             "read.stream" => run_stream(bytes),
+            "read.append" => run_append(bytes),
+            "read.mem" => run_mem(bytes),
             "read.streamc" => {
                 let pat: Vec<usize> = a.get("consume").map(|s| if s == "-" { vec![] } else { s.split(',').filter_map(|x| x.parse().ok()).collect() }).unwrap_or_default();
                 run_streamc(bytes, pat, get_u64(&a, "inner").unwrap_or(0) as usize)
@@ -585,7 +907,21 @@ impl Stream for ReadStream {
     }
 
     fn nontrivial(&self, _line: &str, resp: &str) -> bool {
-        resp.starts_with("open=ok") || resp.starts_with("visit=ok") || resp.starts_with("end=ok files=")
+        resp.starts_with("open=ok") || resp.starts_with("visit=ok") || resp.starts_with("append=ok") || resp.starts_with("end=ok files=")
+    }
+
+    fn stats(&self) -> Vec<(String, u64)> {
+        use std::sync::atomic::Ordering::Relaxed;
+        vec![
+            ("mem.measured_cases".into(), MEASURED.load(Relaxed)),
+            ("mem.sizeof_ZipFileData".into(), std::mem::size_of::<zip::verif_hooks::ZipFileData>() as u64),
+            ("mem.budget_K_bytes_per_input_byte".into(), slot_bytes() as u64),
+            ("mem.budget_C_bytes".into(), 1 << 20),
+            ("mem.max_peak_bytes".into(), MAX_PEAK.load(Relaxed)),
+            ("mem.max_peak_per_input_byte_x100(len>=1000)".into(), MAX_RATIO_X100.load(Relaxed)),
+            ("time.max_case_us".into(), MAX_US.load(Relaxed)),
+            ("time.limit_us".into(), TIME_LIMIT_US as u64),
+        ]
     }
 
     fn oracle(&self, line: &str, resp: &str) -> Vec<OracleFailure> {
@@ -594,7 +930,35 @@ impl Stream for ReadStream {
             f.push(OracleFailure { what: format!("panic: {}", &resp[..resp.len().min(200)]) });
             return f;
         }
+        if resp.contains("fin=skipped") {
+            f.push(OracleFailure { what: format!("new_append accepted a central directory start more than 1 MiB beyond the end of the input ({}): finish()/Drop would write there (zero fill up to that offset, capacity-overflow panic or allocation abort) - D16 regressed", resp.split(' ').find(|t| t.starts_with("ds=")).unwrap_or("ds=?")) });
+        }
         let (op, a) = parse_line(line);
+        // resources (measured on the implementation alone): wall time of the whole case, peak heap
+        // while opening
+        if let Some(bytes) = get_hex(&a, "bytes") {
+            use std::sync::atomic::Ordering::Relaxed;
+            let t0 = std::time::Instant::now();
+            let again = self.run(line);
+            let us = t0.elapsed().as_micros();
+            MAX_US.fetch_max(us as u64, Relaxed);
+            if us > TIME_LIMIT_US {
+                f.push(OracleFailure { what: format!("case took {us} us (> {TIME_LIMIT_US} us) on {} input bytes", bytes.len()) });
+            }
+            if again != resp {
+                f.push(OracleFailure { what: "non-deterministic response on re-run".into() });
+            }
+            let peak = measure_open(&op, &bytes);
+            MEASURED.fetch_add(1, Relaxed);
+            MAX_PEAK.fetch_max(peak as u64, Relaxed);
+            if bytes.len() >= 1000 {
+                MAX_RATIO_X100.fetch_max((peak as u64 * 100) / bytes.len() as u64, Relaxed);
+            }
+            let budget = mem_budget(bytes.len());
+            if peak > budget {
+                f.push(OracleFailure { what: format!("peak heap while opening = {peak} bytes > budget {budget} = {}*len + 1 MiB for len = {}", slot_bytes(), bytes.len()) });
+            }
+        }
         if op == "read.streamc" {
             // however much of each entry is consumed and however the underlying reader chunks its reads, the
             // stream yields the same entries in the same order and ends the same way as when everything is read
@@ -605,6 +969,79 @@ impl Stream for ReadStream {
             // a consumer that stops early does not see a checksum error the full read reports; entries and the end agree otherwise
             if full.starts_with("end=ok") && (end(&full) != end(resp) || names(&full) != names(resp)) {
                 f.push(OracleFailure { what: format!("streaming: entries differ from the read-everything run: `{}` vs `{}`", &resp[..resp.len().min(160)], &full[..full.len().min(160)]) });
+            }
+            // C10: an entry the stream cannot serve (data descriptor / encryption bit) is an error, never data
+            if a.contains_key("refuse") && resp != "end=err:unsupported" {
+                f.push(OracleFailure { what: format!("streaming: an encrypted / data-descriptor entry did not end the stream with UnsupportedArchive: `{}`", &resp[..resp.len().min(160)]) });
+            }
+            // C10: the streamed entries are the seekable reader's entries — names, method, timestamp, CRC, sizes —
+            // and each consumer sees the prefix of the seekable reader's content it asked for
+            if a.contains_key("src") {
+                let bytes = get_hex(&a, "bytes").unwrap_or_default();
+                let pat: Vec<usize> = a.get("consume").map(|s| s.split(',').filter_map(|x| x.parse().ok()).collect()).unwrap_or_default();
+                match seek_list(&bytes) {
+                    Err(e) => f.push(OracleFailure { what: format!("C10: the seekable reader fails on a generated archive: {e}") }),
+                    Ok(sl) => {
+                        let ents: Vec<&str> = resp.split(" | ").skip(1).collect();
+                        if !resp.starts_with(&format!("end=ok files={}", sl.len())) || ents.len() != sl.len() {
+                            f.push(OracleFailure { what: format!("C10: stream yields `{}`, the seekable reader has {} entries", &resp[..resp.len().min(80)], sl.len()) });
+                        } else {
+                            for (i, (e, (meta, content))) in ents.iter().zip(sl.iter()).enumerate() {
+                                let (smeta, got) = e.split_once(" got=").unwrap_or((e, ""));
+                                if let Some(d) = same_stream_fields(smeta, meta) {
+                                    f.push(OracleFailure { what: format!("C10: entry {i} differs between the streaming and the seekable reader: {d}") });
+                                }
+                                let k = if pat.is_empty() { 0 } else { pat[i % pat.len()] };
+                                let want = &content[..k.min(content.len())];
+                                let exp = format!("ok:{}:{}", crc32fast::hash(want), want.len());
+                                if got != exp {
+                                    f.push(OracleFailure { what: format!("C10: entry {i}, {k} bytes requested of {}: stream delivered `{got}`, the seekable reader's content gives `{exp}`", content.len()) });
+                                }
+                            }
+                        }
+                    }
+                }
+            }
+            return f;
+        }
+        if op == "read.stream" {
+            if a.contains_key("refuse") && resp != "visit=err:unsupported" {
+                f.push(OracleFailure { what: format!("visitor: an encrypted / data-descriptor entry did not end the visit with UnsupportedArchive: `{}`", &resp[..resp.len().min(160)]) });
+            }
+            if a.contains_key("src") {
+                // C10: visit_file once per entry in order with the seekable reader's names/sizes/method/time/content,
+                // then visit_additional_metadata once per entry, in order, carrying the central comment and mode
+                let bytes = get_hex(&a, "bytes").unwrap_or_default();
+                match seek_list(&bytes) {
+                    Err(e) => f.push(OracleFailure { what: format!("C10: the seekable reader fails on a generated archive: {e}") }),
+                    Ok(sl) => {
+                        let parts: Vec<&str> = resp.split(" | ").skip(1).collect();
+                        let files: Vec<&str> = parts.iter().filter(|p| p.starts_with("file ")).cloned().collect();
+                        let metas: Vec<&str> = parts.iter().filter(|p| p.starts_with("meta ")).cloned().collect();
+                        let n = sl.len();
+                        let in_order = parts.iter().take(n).all(|p| p.starts_with("file ")) && parts.iter().skip(n).all(|p| p.starts_with("meta "));
+                        if !resp.starts_with(&format!("visit=ok files={n} metas={n}")) || files.len() != n || metas.len() != n || !in_order {
+                            f.push(OracleFailure { what: format!("C10: visit must deliver {n} files then {n} metadata records: `{}`", &resp[..resp.len().min(100)]) });
+                        } else {
+                            for i in 0..n {
+                                let (meta, content) = &sl[i];
+                                let (fmeta, dec) = files[i].split_once(" dec=").unwrap_or((files[i], ""));
+                                if let Some(d) = same_stream_fields(fmeta, meta) {
+                                    f.push(OracleFailure { what: format!("C10: visit_file {i} differs from the seekable reader: {d}") });
+                                }
+                                let exp = format!("ok:{}:{}", crc32fast::hash(content), content.len());
+                                if dec != exp {
+                                    f.push(OracleFailure { what: format!("C10: visit_file {i} content `{dec}` vs seekable `{exp}`") });
+                                }
+                                for k in ["name", "raw", "mode", "comment"] {
+                                    if meta_field(metas[i], k) != meta_field(meta, k) {
+                                        f.push(OracleFailure { what: format!("C10: visit_additional_metadata {i}: {k} `{}` vs the seekable reader's `{}`", meta_field(metas[i], k), meta_field(meta, k)) });
+                                    }
+                                }
+                            }
+                        }
+                    }
+                }
             }
             return f;
         }
